@@ -122,7 +122,20 @@ def _run_case(spec, ctx):
         purity_check(ctx, rng, thunks, mon="purity", scribble=True)
         # the same argument values as strided / negatively strided / read-only / Fortran-ordered arrays
         from vlib.oracles import representation_check
-        representation_check(ctx, [(name, getattr(R, name), (np.array(d["argument"], copy=True),), {}) for name, d, _ in thunks[:70]], mon="representation")
+        calls = [(name, getattr(R, name), (np.array(d["argument"], copy=True),), {}) for name, d, _ in thunks[:70]]
+        # whole-number rotation vectors / screws / matrices (hand-written test data): also handed over as integer arrays
+        for _ in range(3):
+            while True:
+                pw = rng.integers(-2, 3, size=3).astype(float)
+                if 0 < np.linalg.norm(pw) < np.pi:
+                    break
+            hw = np.concatenate([rng.integers(-3, 4, size=3).astype(float), pw])
+            Aw, _c = _rotation(rng)
+            calls += [("Exp_SO3", R.Exp_SO3, (pw,), {}), ("T_SO3", R.T_SO3, (pw,), {}), ("T_SO3_inv", R.T_SO3_inv, (pw,), {}), ("Exp_SE3", R.Exp_SE3, (hw,), {})]
+            if _c == "signed_permutation_int":
+                Af = np.asarray(Aw, dtype=float); Hf = np.eye(4); Hf[:3, :3] = Af; Hf[:3, 3] = hw[:3]
+                calls += [("Log_SO3", R.Log_SO3, (Af,), {}), ("Spurrier", R.Spurrier, (Af,), {}), ("Log_SE3", R.Log_SE3, (Hf,), {})]
+        representation_check(ctx, calls, mon="representation")
         ctx.cls("kind:purity")
         ctx.sig([kind, first], nontrivial=True)
         ctx.sample({"kind": kind, "calls": len(thunks)})
